@@ -29,7 +29,7 @@ def run_native(script_lines, logdir, tag, test="isomer_erbium_replay_pool"):
     p = subprocess.run(cmd, cwd=REPO, env=env, text=True, capture_output=True, timeout=3600)
     out = p.stdout + p.stderr
     open(os.path.join(logdir, f"{tag}.replay.log"), "w").write(out)
-    lines = [l[len("REPLAY "):] for l in out.splitlines() if l.startswith("REPLAY ")]
+    lines = [m.group(1) for m in (re.search(r"REPLAY (.*)$", l) for l in out.splitlines()) if m]
     if not any(l.startswith("result") for l in lines):
         return None, out[-400:]
     return lines, ""
